@@ -59,9 +59,48 @@ SnapshotOK ==
   /\ (Proto = "cache_put" => R.wrong_data = 0 /\ R.temps_after_recover = 0)    \* never wrong bytes; temp files are cleaned up
 
 TrSnapshot == IsEvent("AfSnapshot") /\ Advance /\ (SnapshotOK = TRUE)
+
+(* ---- system-call level (bin/checks/sysfs.py): every file-system-modifying system call of the operation inside the *)
+(* watched directory is one AfSys event; AfSysCrash is the directory a SIGKILL just before the next call leaves,     *)
+(* re-opened by the real component.  A call that is not a step of the protocol (a final name opened for writing or   *)
+(* truncated, a write to a final name, an input unlinked before the rename, a rename onto an input ...) has no       *)
+(* enabled action and the trace is rejected.                                                                         *)
+SysStep ==
+  CASE R.op = "openw" ->
+         /\ R.kind = "temp"                                   \* C19: nothing is ever written in place under a final name
+         /\ IF pc = "start" THEN R.creat /\ Create
+            ELSE pc = "write" /\ fs[Tmp] = "partial" /\ UNCHANGED vars        \* SafeFileCreator re-opens its temp file
+    [] R.op = "write" ->
+         /\ R.kind = "temp" /\ pc = "write" /\ fs[Tmp] = "partial"
+         /\ IF R.last THEN Write ELSE UNCHANGED vars
+    [] R.op = "rename" ->
+         /\ R.kind = "temp" /\ R.to_kind = "final" /\ R.to = New /\ Rename
+    [] R.op = "unlink" ->
+         IF R.kind = "final"
+         THEN pc = "unlink" /\ R.name \in todo /\ Unlink /\ fs'[R.name] = "absent"
+         ELSE /\ R.kind = "temp" /\ pc \in {"write", "rename"}           \* giving up: the temp file is removed again
+              /\ fs' = [fs EXCEPT ![Tmp] = "absent"] /\ pc' = "done" /\ UNCHANGED <<todo, crashed, recovered, conf>>
+    [] R.op = "sync" -> UNCHANGED vars
+    [] R.op = "meta" -> (R.kind = "temp" \/ fs[R.name] = "complete") /\ UNCHANGED vars   \* permissions of a complete file
+    [] R.op = "dir" -> UNCHANGED vars
+    [] OTHER -> FALSE                                         \* truncate, link, ...: not part of any protocol
+TrSys == IsEvent("AfSys") /\ SysStep
+
+ObsFinal(n) ==
+  LET hits == {i \in 1..Len(R.files) : R.files[i].name = n /\ R.files[i].kind = "final"} IN
+  IF hits = {} THEN "absent" ELSE IF \A i \in hits : R.files[i].ok THEN "complete" ELSE "partial"
+ObsTmp == \E i \in 1..Len(R.files) : R.files[i].kind = "temp"
+SysCrashOK ==
+  /\ \A n \in Names \ {Tmp} : ObsFinal(n) = fs[n]            \* the killed run left exactly the model's file system
+  /\ ObsTmp <=> fs[Tmp] # "absent"
+  /\ \A i \in 1..Len(R.files) : R.files[i].kind = "final" => R.files[i].ok
+  /\ R.loader_ok
+  /\ (IF Proto = "cache_put" THEN Inputs \ Victims ELSE Inputs) \subseteq Range(R.retrievable)
+  /\ (Proto = "cache_put" => R.wrong_data = 0 /\ R.temps_after_recover = 0)
+TrSysCrash == IsEvent("AfSysCrash") /\ (SysCrashOK = TRUE) /\ UNCHANGED vars
 TrEnd == IsEvent("AfEnd") /\ R.ok /\ UNCHANGED vars
 
-TraceNext == TrReset \/ TrStart \/ TrSnapshot \/ TrEnd
+TraceNext == TrReset \/ TrStart \/ TrSnapshot \/ TrEnd \/ TrSys \/ TrSysCrash
 TraceSpec == TraceInit /\ [][TraceNext]_tvars
 TraceAccepted ==
   LET d == TLCGet("stats").diameter IN
